@@ -14,7 +14,7 @@ def harnesses(tier):
     for w in range(8):
         for n in ((2, 3) if w < 4 or w == 7 else (1,) if w in (4, 6) else (3,)):
             if tier == 'quick' and n == 3 and 2 <= w < 4: continue
-            if tier == 'quick' and w < 2: continue      # and / or build their rows with std::vector inserts of data-dependent size: encoding exceeds 16 GB (thorough tier, 40 GB)
+            if tier == 'quick' and w < 2: continue      # and / or: their rows go through LinTerms::sort_terms / std::map (loops symex cannot bound): > 16 GB / no verdict in 300 s; attempted in the thorough tier only
             for ctx in ((3,) if w == 7 else (1, 2, 3)):      # count converts identically in every context
                 h = Harness('h_reform', 'redef', unwind=10, timeout=300 if tier == 'quick' else 1800, mem_gb=16 if w >= 2 else 40, defines=['WHICH=%d' % w, 'NARGS=%d' % n, 'CTX=%d' % ctx], tv_cases=0, flags=['--object-bits', '10'], assumptions=A,
                             bounds='%s over %d argument(s), context %s; every integer point in [-1000,1000]^k, every auxiliary assignment' % (NAMES[w], n, {1: 'positive', 2: 'negative', 3: 'mixed'}[ctx]),
